@@ -2,17 +2,17 @@
 # every quick check against each change that alters observable output but keeps its property (patches
 # /tmp/seedP-<id>/patch.diff, worktrees /tmp/wtP-<id>); serial.  What matters: a check may report a broken
 # correspondence (…no-failing-input-found) but must not present a failing input (oracle_fail must stay 0).
-# usage: tools/batch_preserving.sh C07 C10 …  -> /tmp/preserving-results/<id>.log + summary.txt
+# usage: tools/batch_preserving.sh C07 C10 …  -> $res/<id>.log + summary.txt
 cd ${VERIF_HOME:-/verif}
-mkdir -p /tmp/preserving-results
+K=${K:-P}; res=/tmp/preserving$K-results; mkdir -p $res
 for id in "$@"; do
-  wt=/tmp/wtP-$id
+  wt=/tmp/wt$K-$id
   git -C $wt checkout -q -- . ; git -C $wt clean -fdq -e target
-  if ! git -C $wt apply /tmp/seedP-$id/patch.diff; then echo "$id PATCH-DOES-NOT-APPLY" >> /tmp/preserving-results/summary.txt; continue; fi
+  if ! git -C $wt apply /tmp/seed$K-$id/patch.diff; then echo "$id PATCH-DOES-NOT-APPLY" >> $res/summary.txt; continue; fi
   for c in ${CHECKS:-C01 C02 C03 C04 C05 C06 C07 C08 C09 C10 C11 C12 C13 C14 C15 C16 C17 C18 C19 C20}; do
     VERIF_REPO=$wt ./check $c --tier quick 2>&1 | grep -E "VIOLATION|KNOWN|^\[|NOTE|pin" | head -8
-  done > /tmp/preserving-results/$id.log 2>&1
+  done > $res/$id.log 2>&1
   git -C $wt checkout -q -- .
-  echo "$id: $(grep -c 'VIOLATION' /tmp/preserving-results/$id.log) violation lines, $(grep 'VIOLATION' /tmp/preserving-results/$id.log | grep -vc 'no-failing-input-found') WITH A FAILING INPUT; $(grep '^\[' /tmp/preserving-results/$id.log | grep -v ' OK' | sed 's/ tier.*model_diff/ model_diff/; s/ wall.*//' | tr '\n' ' ')" >> /tmp/preserving-results/summary.txt
+  echo "$id: $(grep -c 'VIOLATION' $res/$id.log) violation lines, $(grep 'VIOLATION' $res/$id.log | grep -vc 'no-failing-input-found') WITH A FAILING INPUT; $(grep '^\[' $res/$id.log | grep -v ' OK' | sed 's/ tier.*model_diff/ model_diff/; s/ wall.*//' | tr '\n' ' ')" >> $res/summary.txt
 done
-echo BATCH-DONE >> /tmp/preserving-results/summary.txt
+echo BATCH-DONE >> $res/summary.txt
